@@ -69,11 +69,23 @@ def real(case):
     else:
         old_h, old_d = pulp.HiGHS_CMD, pulp.LpSolverDefault
         try:
-            if cfg == "highs":
-                class FakeHighs:
-                    def __new__(cls, *a, **k):
-                        return spy
+            if cfg.startswith("highs"):
+                # a genuine HiGHS_CMD subclass (code that tests isinstance(solver, pulp.HiGHS_CMD) sees a HiGHS solver);
+                # the default solver next to it is healthy CBC / a failing solver / absent
+                class FakeHighs(old_h):
+                    def __init__(self, *a, **k):
+                        pulp.LpSolver.__init__(self, msg=False)
+
+                    def available(self):
+                        return True
+
+                    def actualSolve(self, lp, **kw):
+                        return spy.actualSolve(lp, **kw)
                 pulp.HiGHS_CMD = FakeHighs
+                if cfg == "highs+bad-default":
+                    pulp.LpSolverDefault = Spy("raises")
+                elif cfg == "highs+no-default":
+                    pulp.LpSolverDefault = None
             else:
                 class NoHighs:
                     def __init__(self, *a, **k):
@@ -92,6 +104,34 @@ def real(case):
     return out
 
 
+def real_history(case):
+    """the same object asked twice: first a call that succeeds, then one whose solver cannot deliver"""
+    seq, pairs, cfg, fault = case
+    out = {"fcfs": call(lambda: g1.mk_bpseq(seq, pairs).fcfs.structure), "called": 1, "ones": None}
+    b = g1.mk_bpseq(seq, pairs)
+    if cfg == "after-ok":
+        call(lambda: b.convert_to_dot_bracket(Spy("ok")).structure)
+        out["res"] = call(lambda: b.convert_to_dot_bracket(Spy(fault)).structure)
+    elif cfg == "after-dot_bracket":
+        call(lambda: b.dot_bracket.structure)
+        out["res"] = call(lambda: b.convert_to_dot_bracket(Spy(fault)).structure if fault != "none" else b.convert_to_dot_bracket(None).structure)
+    else:
+        raise ValueError(cfg)
+    return out
+
+
+def real_any(case):
+    return real_history(case) if case[2].startswith("after-") else real(case)
+
+
+def late_crossings(rng):
+    """many stems in a row with crossings only between stems far apart in the 5'->3' numbering (two-digit stem
+    indices): hairpins, two openers, a run of hairpins, and partners that close across them"""
+    h0, h1 = rng.randint(0, 2), rng.randint(6, 10)
+    body = "(..)" * h0 + "[[.{{." + "(..)" * h1 + "<<.}}.AA.]].>>.aa" + "(..)" * rng.randint(0, 2)
+    return g1.from_dbn(body, g1.seq_for(len(body), rng))
+
+
 def run(ctx):
     res = Result("C13")
     res.rule = ("cases = (structure, configuration in {highs, cbc, none, direct spy, direct None}, fault in {ok, raises, notsolved, "
@@ -106,6 +146,8 @@ def run(ctx):
         structs.append(("dense", g1.small_dense(rng)))
     for k in (2, 3, 5, 8):
         structs.append(("ladder%d" % k, g1.ladder(k)))
+    for _ in range(ctx.pick(6, 60)):
+        structs.append(("late-crossings", late_crossings(rng)))
     cases, meta = [], []
     for tag, (seq, pairs) in structs:
         sizes = component_sizes(pairs)
@@ -113,17 +155,23 @@ def run(ctx):
             continue
         knotted = any(s > 1 for s in sizes)
         combos = [(c, f) for c in ("highs", "cbc", "direct") for f in FAULTS] + [("none", "ok"), ("direct-none", "ok")]
+        combos += [(c, f) for c in ("highs+bad-default", "highs+no-default") for f in ("raises", "notsolved", "ok")]
+        if knotted:
+            combos += [("after-ok", f) for f in ("raises", "infeasible", "incumbent-notsolved")] + \
+                      [("after-dot_bracket", f) for f in ("none", "raises", "undefined")]
         if tag == "exh" or not knotted:
             combos = rng.sample(combos, 4) + [("none", "ok")]
         for cfg, fault in combos:
             cases.append((seq, pairs, cfg, fault))
             meta.append((tag, knotted))
-    outs = parallel_map(real, cases)
-    history_probe(ctx, res, real, cases, "dot_bracket-under-faults")
+    outs = parallel_map(real_any, cases)
+    history_probe(ctx, res, real_any, cases, "dot_bracket-under-faults")
     reqs, idx = [], []
     for ci, ((seq, pairs, cfg, fault), o) in enumerate(zip(cases, outs)):
         ps = g1.pstr(pairs)
         solver = "0" if cfg in ("none", "direct-none") else "1"
+        if cfg.startswith("after-"):
+            continue        # same-object histories: judged against the statement below, no model line
         if fault == "ok":
             if o["ones"] is None:
                 outcome, ones = "notopt", "-"  # solver never consulted (no crossing or no solver): outcome irrelevant
